@@ -30,6 +30,14 @@ GroupProgramsC04(g) ==
                               o1 \in {"+", "*"}, o2 \in {"-", "*"}, o3 \in {"+", "-"}, b \in {DD(FALSE, <<2>>, -1), DD(FALSE, Third, -34), DD(FALSE, <<1>>, 33)},
                               c \in {DD(FALSE, <<3>>, -1), DD(FALSE, <<5>>, -34)} }
                          \cup { <<"Bin", "===", <<"Bin", "+", Lt(DD(FALSE, <<1>>, -1)), Lt(DD(FALSE, <<2>>, -1))>>, Lt(DD(FALSE, <<3>>, -1))>> }
+                         \* an exact zero that carries fraction digits is the number zero: 0.1 + 0.2 - 0.3, 2.5 % 0.5, 1.5 - 1.5, 0.00, -0.0
+                         \cup { <<"Bin", op, z, Lt(w)>> : op \in {"===", "!==", "==", "<", ">="}, w \in {DD(FALSE, <<>>, 0)},
+                                    z \in { <<"Bin", "-", <<"Bin", "+", Lt(DD(FALSE, <<1>>, -1)), Lt(DD(FALSE, <<2>>, -1))>>, Lt(DD(FALSE, <<3>>, -1))>>,
+                                            <<"Bin", "%", Lt(DD(FALSE, <<2,5>>, -1)), Lt(DD(FALSE, <<5>>, -1))>>,
+                                            <<"Bin", "-", Lt(DD(FALSE, <<1,5>>, -1)), Lt(DD(FALSE, <<1,5>>, -1))>>,
+                                            <<"Bin", "*", Lt(DD(FALSE, <<>>, 0)), Lt(DD(FALSE, <<2,5>>, -2))>>,
+                                            <<"Bin", "-", Lt(DD(FALSE, <<1,9,9,9>>, -2)), Lt(DD(FALSE, <<1,9,9,9>>, -2))>> } }
+                         \cup { <<"Bin", "===", <<"Bin", "-", Lt(DD(FALSE, <<1,5>>, -1)), Lt(DD(FALSE, <<1,5>>, -1))>>, <<"Bin", "*", Lt(DD(FALSE, <<>>, 0)), Lt(DD(FALSE, <<2,5>>, -2))>>>> }
     [] g[1] = "data" ->
          { <<"Bin", "===", Id(n), Lt(v)>> : n \in {"i64", "f01", "int1", "f1", "i32", "d3", "negzero"},
                                            v \in {DD(FALSE, <<9,0,0,7,1,9,9,2,5,4,7,4,0,9,9,3>>, 0), DD(FALSE, <<1>>, -1), DD(FALSE, <<1>>, 0), DD(TRUE, <<2>>, 0), DD(FALSE, <<3>>, -1), DD(FALSE, <<>>, 0)} }
